@@ -3,7 +3,8 @@
    functions, the number of layers and weights, every weight value, scale and batch-norm
    statistic are inside the forall. *)
 From Coq Require Import ZArith QArith List.
-From QV Require Import Base.ZQ Base.FL Quant.Fixed Quant.Po2 Quant.AutoScale Export.Export.
+From QV Require Import Base.ZQ Base.FL Quant.Fixed Quant.Po2 Quant.AutoScale Export.Export Export.Book Link.ExportLink.
+From QVGen Require Import ExportGen.
 Import ListNotations.
 
 (* every quantized layer holds exactly its quantizer applied once to its previous weights *)
@@ -107,3 +108,38 @@ Proof. cbn zeta. split; [|vm_compute; discriminate].
 Example C14_nonvacuous_auto :
   let t := hw_auto (1#2) 32 2 (auto_weight (1#2) 32 2 (-3)) in fst t == -3 /\ snd t == 1#32 /\ snd t * fst t == -(3#32).
 Proof. cbn zeta. repeat split; vm_compute; reflexivity. Qed.
+
+(* ---- the bookkeeping of the export loop as /repo has it now (coq/gen/ExportGen.v, regenerated from utils.py on every run) ---- *)
+Theorem C14_export_translation_ok : export_translation_ok = true.
+Proof. exact link_export_ok. Qed.
+(* whatever quantizers a layer has -- any number, any kinds, in any order -- entry i of the stored weights, of `signs`, of `scales`
+   and of the hardware weights describes weight i *)
+Theorem C14_code_export_lists_describe_the_weights_in_order : forall ks,
+  let b := run gen_effect ks in
+  b_w b = map wtag_of ks /\ b_s b = map stag_of ks /\ b_c b = map ctag_of ks /\ b_h b = map htag_of ks.
+Proof. intros ks. cbv zeta. rewrite link_export_run. apply export_lists_describe_the_weights_in_order. Qed.
+Print Assumptions C14_code_export_lists_describe_the_weights_in_order.
+Theorem C14_code_export_lists_aligned : forall ks,
+  let b := run gen_effect ks in
+  length (b_w b) = length ks /\ length (b_s b) = length ks /\ length (b_c b) = length ks /\ length (b_h b) = length ks.
+Proof. intros ks. cbv zeta. rewrite link_export_run. apply export_lists_aligned. Qed.
+Print Assumptions C14_code_export_lists_aligned.
+Theorem C14_code_export_entry_at_its_index : forall ks i k, nth_error ks i = Some k ->
+  let b := run gen_effect ks in
+  nth_error (b_w b) i = Some (wtag_of k) /\ nth_error (b_s b) i = Some (stag_of k) /\
+  nth_error (b_c b) i = Some (ctag_of k) /\ nth_error (b_h b) i = Some (htag_of k).
+Proof. intros ks i k H. cbv zeta. rewrite link_export_run. apply export_entry_at. exact H. Qed.
+Print Assumptions C14_code_export_entry_at_its_index.
+(* signs are returned iff some weight of the layer is a signed power of two, scales iff some weight has an auto power-of-two scale:
+   the flags are raised, never reset by a later weight *)
+Theorem C14_code_export_flags : forall ks,
+  b_sign (run gen_effect ks) = existsb is_signed_po2 ks /\ b_scale (run gen_effect ks) = existsb is_auto ks.
+Proof. intros ks. rewrite link_export_run. apply export_flags. Qed.
+Print Assumptions C14_code_export_flags.
+(* the two slips the statement excludes, refuted on the model: skipping the entries of unquantized weights, re-assigning the flag *)
+Theorem C14_skipping_unquantized_entries_refuted :
+  exists ks i, nth_error ks i = Some KPo2 /\ nth_error (b_s (run effect_skip_unquantized ks)) i <> Some SSign.
+Proof. exact skipping_unquantized_entries_misaligns. Qed.
+Theorem C14_reassigning_the_sign_flag_refuted :
+  exists ks, existsb is_signed_po2 ks = true /\ b_sign (run effect_sign_reassigned ks) = false.
+Proof. exact reassigning_the_sign_flag_loses_signs. Qed.
